@@ -321,3 +321,12 @@ def _m_unstructured(v):
     if w.get("clause") in ("ii", "iii"):
         return True
     return "does not exist, but a jump to it does" in str(w.get("error", ""))
+
+
+@model("call-position-on-dropped-first-op")
+def _m_call_pos_dropped(v):
+    """Trigger / observation (C08): the first op of a macro expansion was removed by jump elimination (a macro body that starts
+    with a `while` loop: its leading jump to the loop test jumps to the next label); the call position is only on the source map
+    entry of that removed op, the first emitted op of the expansion has none."""
+    w = v.get("witness") or {}
+    return v.get("sig", "").startswith("call-position-only-on-dropped-first-op") and w.get("got") is None and bool(w.get("dropped_ops_with_the_call_position"))
